@@ -47,3 +47,8 @@ register_meta('C16', level='proof', explanation='tokenizers and the matcher offs
               assumptions=['BOUNDED (not proved): c16.trie.insert_then_find.bounded and c16.matcher.end_to_end.bounded stand in for '
                            'TrieTree.insert/find on fixed shapes',
                            'str.isspace/isdigit/isalpha are uninterpreted predicates of (string, position); ord() an uninterpreted code'])
+
+register_meta('C13', level='proof', explanation='regular-language obligations + contracts on extract/parse/drop_leading_zeros',
+              trusted=['relang/nfa.py: sre parse tree -> NFA with exact character-class alphabet and \\b from neighbour classes; product with spec automata'],
+              assumptions=['IPv6 drop_leading_zeros layouts are bounded stand-ins', 'regexes with look-arounds (e-mail, URL, phone, hashtag, mention) assumed',
+                           'sweep completeness (nothing dropped) not under contract'])
